@@ -93,10 +93,12 @@ type Node struct {
 	Prepared           map[string]string // hex id -> query
 	Conns              []*BackendConn
 	Keyspaces          map[string]bool // keyspaces that exist (lower-cased, unquoted form)
+	BusyKeyspaces      map[string]bool // keyspaces for which a USE is answered OVERLOADED
 	Restarts           int
 	// RespCompress: 0 follow the request's connection setting for every frame, 1 never, 2 per-frame choice
 	RespCompress  int
 	AuthUser      string // if set, PasswordAuthenticator with this user/password
+	AnnounceIP    net.IP // if set: what the node says about itself in system.local (its peers list it under IP): a node with a misconfigured broadcast address, usable for requests, useless for the control connection
 	RefuseNew     bool   // the node accepts no new connections (a node that left the ring has stopped its native transport; connections it still has linger)
 	AuthDSE       bool   // ... as a DSE node does it: mechanism name first, then a challenge round
 	AuthPass      string
@@ -441,6 +443,12 @@ func (c *BackendConn) handleQuery(raw []byte, frm *frame.Frame, msg *message.Que
 		return
 	case strings.HasPrefix(uq, "USE "):
 		ks := normKeyspace(strings.TrimSpace(strings.TrimSuffix(strings.TrimSpace(stripCQLComments(q[4:])), ";")))
+		if n.BusyKeyspaces[ks] {
+			// a node that sheds load: the USE is refused for now, not for good
+			w.Stat("backend.use_overloaded")
+			c.replyNow(stream, &message.Overloaded{ErrorMessage: "overloaded, try again later"})
+			return
+		}
 		if n.Keyspaces != nil && !n.Keyspaces[ks] {
 			w.Stat("backend.use_unknown")
 			c.replyNow(stream, &message.Invalid{ErrorMessage: fmt.Sprintf("Keyspace '%s' does not exist", ks)})
@@ -499,6 +507,9 @@ func (c *BackendConn) handlePrepare(raw []byte, frm *frame.Frame, msg *message.P
 	tok := tokenOf(msg)
 	att := w.recordAttempt(c, raw, frm, tok)
 	out := w.nextOutcome(tok, att)
+	if out.Kind == OutHostile && n.NeverHostile {
+		out = OK // (the healthy node answers a PREPARE with PREPARED whatever the script says)
+	}
 	att.Outcome = out.Name
 	switch out.Kind {
 	case OutOK:
@@ -634,7 +645,7 @@ var HostileKinds = []string{"wrong-stream", "request-opcode-as-response", "short
 	"huge-length-then-silence", "unprepared-for-cached-id", "unknown-result-kind", "garbage-event", "direction-bit-missing",
 	"truncated-rows", "error-with-bad-code", "zero-length-result",
 	"negative-stream-ready", "negative-stream-result", "min-stream-error", "max-stream-result", "unsolicited-ready-then-answer",
-	"flagged-short-body"}
+	"flagged-short-body", "result-of-another-kind"}
 
 // hostile answers a request the way no healthy Cassandra node would (C17).
 func (c *BackendConn) hostile(kind int, stream int16, att *Attempt, tok string) {
@@ -671,6 +682,17 @@ func (c *BackendConn) hostile(kind int, stream int16, att *Attempt, tok string) 
 			id = []byte("0123456789abcdef")
 		}
 		c.Link.PeerWrite(encodeFrame(c.Compression, frame.NewFrame(c.Version, stream, &message.Unprepared{ErrorMessage: "unprepared", Id: id})))
+	case "result-of-another-kind":
+		// a well-formed RESULT, only not of the kind the request calls for (VOID or SET_KEYSPACE
+		// where PREPARED or ROWS is due, and so on)
+		var m message.Message = &message.VoidResult{}
+		switch variant % 3 {
+		case 1:
+			m = &message.SetKeyspaceResult{Keyspace: "ks_hostile"}
+		case 2:
+			m = &message.SchemaChangeResult{ChangeType: primitive.SchemaChangeTypeCreated, Target: primitive.SchemaChangeTargetKeyspace, Keyspace: "ks_hostile"}
+		}
+		c.Link.PeerWrite(encodeFrame(c.Compression, frame.NewFrame(c.Version, stream, m)))
 	case "unknown-result-kind":
 		c.Link.PeerWrite(append(hdr(stream, 0x08, 4), 0, 0, 0, 0x99))
 	case "garbage-event":
@@ -768,8 +790,12 @@ func (n *Node) dseCol(v primitive.ProtocolVersion) []byte {
 }
 
 func (n *Node) localRows(v primitive.ProtocolVersion) *message.RowsResult {
+	ip := n.IP
+	if n.AnnounceIP != nil {
+		ip = n.AnnounceIP
+	}
 	row := message.Row{
-		encVarchar("local", v), encInet(n.IP, v), encVarchar(n.DC, v), encVarchar("rack-backend", v),
+		encVarchar("local", v), encInet(ip, v), encVarchar(n.DC, v), encVarchar("rack-backend", v),
 		encStrList([]string{"12345"}, v), encVarchar(BackendReleaseVersion, v), encVarchar(BackendPartitioner, v),
 		encVarchar(SentinelClusterName, v), encVarchar(BackendCQLVersion, v), encUUID(n.HostID, v), n.dseCol(v),
 	}
